@@ -286,9 +286,36 @@ fn main() {
     match args.req("--mode") {
         "replay" => {
             let cases = read_ndjson(Path::new(args.req("--cases")));
+            let nthreads = (args.num("--threads", 6) as usize).max(1);
+            let mut chunks: Vec<Vec<Value>> = (0..nthreads).map(|_| Vec::new()).collect();
+            for (i, c) in cases.into_iter().enumerate() {
+                chunks[i % nthreads].push(c);
+            }
+            let handles: Vec<_> = chunks
+                .into_iter()
+                .map(|chunk| {
+                    std::thread::spawn(move || {
+                        let mut st = Stats::default();
+                        for c in &chunk {
+                            replay_case(c, &mut st);
+                        }
+                        st
+                    })
+                })
+                .collect();
             let mut st = Stats::default();
-            for c in &cases {
-                replay_case(c, &mut st);
+            for h in handles {
+                let s = h.join().unwrap_or_else(|_| fatal("worker thread panicked"));
+                st.calls += s.calls;
+                st.drift += s.drift;
+                st.nontrivial += s.nontrivial;
+                st.admits += s.admits;
+                st.limits += s.limits;
+                st.panics += s.panics;
+                st.fails.extend(s.fails);
+                if st.drifts.len() < 10 {
+                    st.drifts.extend(s.drifts);
+                }
             }
             let mut o = Out::create(&out);
             for f in st.fails.iter().take(300) {
